@@ -103,25 +103,31 @@ def oracle_effective(levels, inv_o, it_o):
 
 
 # ------------------------------------------------------------------ configurations
-def base_config(n_exec=1, n_suite=1, n_bench=1):
+def exp_name(x):
+    return 'testExp' if x == 0 else 'testExp%d' % x
+
+
+def base_config(n_exec=1, n_suite=1, n_bench=1, n_exp=1):
     cfg = {
         'benchmark_suites': {}, 'machines': {'m': {}}, 'executors': {},
-        'experiments': {'testExp': {'suites': [], 'executions': []}},
+        'experiments': {exp_name(x): {'suites': [], 'executions': []} for x in range(n_exp)},
     }
     for s in range(n_suite):
         cfg['benchmark_suites']['S%d' % s] = {
             'gauge_adapter': 'RebenchLog', 'command': 'cmd %(benchmark)s it=%(iterations)s wu=%(warmup)s',
             'benchmarks': [{'B%d' % b: {}} for b in range(n_bench)]}
-        cfg['experiments']['testExp']['suites'].append('S%d' % s)
+        for x in range(n_exp):
+            cfg['experiments'][exp_name(x)]['suites'].append('S%d' % s)
     for e in range(n_exec):
         cfg['executors']['E%d' % e] = {'path': '.', 'executable': 'exe%d' % e}
-        cfg['experiments']['testExp']['executions'].append({'E%d' % e: {}})
+        for x in range(n_exp):
+            cfg['experiments'][exp_name(x)]['executions'].append({'E%d' % e: {}})
     return cfg
 
 
-def level_dicts(cfg, e, s, b):
-    """the seven dicts of the raw configuration that apply to the run (executor e, suite s, bench b)"""
-    exp = cfg['experiments']['testExp']
+def level_dicts(cfg, e, s, b, x=0):
+    """the seven dicts of the raw configuration that apply to the run (executor e, suite s, bench b) of experiment x"""
+    exp = cfg['experiments'][exp_name(x)]
     runs = cfg.setdefault('runs', {})
     return [cfg['machines']['m'], runs, exp, exp['executions'][e]['E%d' % e],
             cfg['executors']['E%d' % e], cfg['benchmark_suites']['S%d' % s],
@@ -145,13 +151,13 @@ def value_for(setting, level_idx, rng, salt=0):
     if setting == 'env':
         return rng.choice([{'LVL': 'l%d_%d' % (k, salt)}, {'LVL': 'l%d' % k, 'X': 'y'}, {}])
     if setting == 'input_sizes':
-        return rng.choice([[k + 10 * salt], [k, 100 + k], ['s%d' % k]])
+        return rng.choice([[k + 10 * salt], [k, 100 + k], ['s%d' % k]] + ([[]] if rng.random() < 0.25 else []))
     if setting == 'cores':
-        return rng.choice([[k + 1 + 10 * salt], [k + 1, 50 + k]])
+        return rng.choice([[k + 1 + 10 * salt], [k + 1, 50 + k]] + ([[]] if rng.random() < 0.25 else []))
     if setting == 'variable_values':
-        return rng.choice([['v%d_%d' % (k, salt)], ['v%d' % k, 'w%d' % k]])
+        return rng.choice([['v%d_%d' % (k, salt)], ['v%d' % k, 'w%d' % k]] + ([[]] if rng.random() < 0.25 else []))
     if setting == 'tags':
-        return rng.choice([['t%d_%d' % (k, salt)], ['t%d' % k, 'u%d' % k]])
+        return rng.choice([['t%d_%d' % (k, salt)], ['t%d' % k, 'u%d' % k]] + ([[]] if rng.random() < 0.25 else []))
     raise KeyError(setting)
 
 
@@ -200,7 +206,8 @@ def compile_config(cfg, cli):
     args = _parser.parse_args(['-D'] + cli + ['dummy.conf'])
     ui = TestDummyUI()
     # the compile mutates nothing in raw config except env expansion on access; hand it a deep copy anyway
-    cnf = Configurator(copy.deepcopy(cfg), DataStore(ui), ui, args, None, 'testExp', None, None, [], 'm')
+    cnf = Configurator(copy.deepcopy(cfg), DataStore(ui), ui, args, None,
+                       'testExp' if len(cfg['experiments']) == 1 else 'all', None, None, [], 'm')
     return cnf
 
 
@@ -238,9 +245,12 @@ class Batch(object):
             except Exception as e:  # noqa
                 runs, crash = [], '%s: %s' % (type(e).__name__, e)
             by_path = {}
-            for r in runs:
-                p = (int(r.benchmark.suite.executor.name[1:]), int(r.benchmark.suite.name[1:]), int(r.benchmark.name[1:]))
-                by_path.setdefault(p, []).append(r)
+            if crash is None:
+                for x in range(len(cfg['experiments'])):
+                    for r in cnf.get_experiments()[exp_name(x)].runs:
+                        p = (int(r.benchmark.suite.executor.name[1:]), int(r.benchmark.suite.name[1:]),
+                             int(r.benchmark.name[1:]))
+                        by_path.setdefault(p + ((x,) if len(cfg['experiments']) > 1 else ()), []).append(r)
             for p in paths:
                 levels = [dict(d) for d in level_dicts(cfg, *p)]
                 codes = Codes()
@@ -260,6 +270,13 @@ class Batch(object):
             n_def = sum(1 for lv in levels for k in lv)
             ck.case(nontrivial_key=json.dumps([levels, cli], sort_keys=True, default=str) if n_def >= 2 else None,
                     sample={'levels': dict(zip(LEVELS, levels)), 'cli': cli})
+            want0 = oracle_effective(levels, inv_o, it_o)
+            if not crash and any(len(want0[k]) == 0 for k in VARS):
+                # an explicitly empty variable list at the winning level: no run for this benchmark
+                ck.count('empty-variable-list')
+                if runs:
+                    ck.oracle_fail('empty_list_means_no_runs', inp, {'runs': len(runs)}, {'setting': 'variables'})
+                continue
             if crash or not runs:
                 ck.disagree('c02.compile: real Configurator produced no run for the path', inp,
                             {'crash': crash, 'runs': len(runs)}, ans)
@@ -329,10 +346,14 @@ def random_configs(ck, batch, n):
     rng = ck.rng
     for _ in range(n):
         ne, ns, nb = rng.randint(1, 2), rng.randint(1, 2), rng.randint(1, 2)
-        cfg = base_config(ne, ns, nb)
-        paths = [(e, s, b) for e in range(ne) for s in range(ns) for b in range(nb)]
+        nx = 2 if rng.random() < 0.35 else 1     # the same executors and suites used by two experiments
+        cfg = base_config(ne, ns, nb, nx)
+        paths = [(e, s, b) + ((x,) if nx > 1 else ()) for x in range(nx) for e in range(ne) for s in range(ns)
+                 for b in range(nb)]
         seen = set()
         bare = set()
+        # experiments that agree in every run detail and differ only in their variable lists
+        vars_only = nx > 1 and rng.random() < 0.5
         for p in paths:
             for i, d in enumerate(level_dicts(cfg, *p)):
                 if id(d) in seen:
@@ -344,6 +365,8 @@ def random_configs(ck, batch, n):
                     continue
                 for k in RAW3:
                     r = rng.random()
+                    if vars_only:
+                        continue
                     if r < 0.35:
                         d[k] = raw_value(1, i, rng, salt)
                     elif r < 0.55:
@@ -351,7 +374,9 @@ def random_configs(ck, batch, n):
                 for k in PLAIN + VARS:
                     if k in VARS and LEVELS[i] == 'runs':
                         continue
-                    if rng.random() < 0.3:
+                    if vars_only and (k in PLAIN or LEVELS[i] not in ('experiment', 'execution', 'machine')):
+                        continue
+                    if rng.random() < (0.5 if vars_only else 0.3):
                         d[k] = value_for(k, i, rng, salt)
         batch.add(cfg, rng.choice(CLI_VARIANTS), paths, 'random-multi')
         if len(batch.items) >= 200:
